@@ -213,19 +213,19 @@ def _case(mods, rec):
 
 
 # ------------------------------------------------------------------------------------------ the client's own imports (InitStd)
-STD_STMT = {"import_os_path": "import os.path", "import_conc_futures": "import concurrent.futures", "import_xml_minidom": "import xml.dom.minidom",
+STD_STMT = {"import_os_path": "import os.path", "import_os_path_sep": "import os.path", "import_conc_futures": "import concurrent.futures", "import_xml_minidom": "import xml.dom.minidom",
             "import_xml_etree": "import xml.etree.ElementTree", "from_os_path": "from os import path", "from_sys_path": "from sys import path", "import_json_as_j": "import json as j",
             "import_json": "import json", "from_json_dumps": "from json import dumps as dump", "from_pickle_dumps": "from pickle import dumps as dump",
             "from_ospath_join": "from os.path import join", "from_shlex_join": "from shlex import join", "import_pickle_as_json": "import pickle as json"}
 # the expression by which the client uses what a statement binds (one per statement)
-STD_USE = {"import_os_path": "os.path.join", "import_conc_futures": "concurrent.futures.Future", "import_xml_minidom": "xml.dom.minidom.parseString",
+STD_USE = {"import_os_path": "os.path.join", "import_os_path_sep": "os.sep", "import_conc_futures": "concurrent.futures.Future", "import_xml_minidom": "xml.dom.minidom.parseString",
            "import_xml_etree": "xml.etree.ElementTree.Element", "from_os_path": "path", "from_sys_path": "path", "import_json_as_j": "j.loads",
            "import_json": "json.loads", "from_json_dumps": "dump", "from_pickle_dumps": "dump", "from_ospath_join": "join", "from_shlex_join": "join",
            "import_pickle_as_json": "json.loads"}
 
 
 # (name bound, object) per statement, as in the catalogue of Imports.tla
-STD_BIND = {"import_os_path": ("os", "mod:os"), "import_conc_futures": ("concurrent", "mod:concurrent"), "import_xml_minidom": ("xml", "mod:xml"),
+STD_BIND = {"import_os_path": ("os", "mod:os"), "import_os_path_sep": ("os", "mod:os"), "import_conc_futures": ("concurrent", "mod:concurrent"), "import_xml_minidom": ("xml", "mod:xml"),
             "import_xml_etree": ("xml", "mod:xml"), "from_os_path": ("path", "mod:os.path"), "from_sys_path": ("path", "sys.path"),
             "import_json_as_j": ("j", "mod:json"), "import_json": ("json", "mod:json"), "from_json_dumps": ("dump", "json.dumps"),
             "from_pickle_dumps": ("dump", "pickle.dumps"), "from_ospath_join": ("join", "os.path.join"), "from_shlex_join": ("join", "shlex.join"),
